@@ -19,7 +19,7 @@ def feed_run(tier, seed, q=800, t=80000):
     return {"mode": "pricefeed", "args": ["--seed", seed, "--count", _counts(tier, q, t)]}
 
 
-def world_runs(tier, seed, q=240, t=2500, tn=16, qn=4):
+def world_runs(tier, seed, q=480, t=2500, tn=16, qn=8):
     if tier == "quick":
         return [{"mode": "world", "args": ["--seed", seed * 100 + i, "--count", q // qn]} for i in range(qn)]
     return [{"mode": "world", "args": ["--seed", seed * 1000 + i, "--count", t]} for i in range(tn)]
@@ -33,13 +33,13 @@ def pump_runs(tier, seed, q=150, t=1200, n=3):
 
 def fault_runs(tier, seed, q=60, t=1200, tn=8):
     if tier == "quick":
-        return [{"mode": "fault", "args": ["--seed", seed * 100 + 50 + i, "--count", q // 2]} for i in range(2)]
+        return [{"mode": "fault", "args": ["--seed", seed * 100 + 50 + i, "--count", q // 2]} for i in range(4)]
     return [{"mode": "fault", "args": ["--seed", seed * 1000 + 500 + i, "--count", t]} for i in range(tn)]
 
 
 def twin_runs(tier, seed, q=160, t=2000, tn=12):
     if tier == "quick":
-        return [{"mode": "twin", "args": ["--seed", seed * 100 + 70 + i, "--count", q // 4]} for i in range(4)]
+        return [{"mode": "twin", "args": ["--seed", seed * 100 + 70 + i, "--count", q // 4]} for i in range(8)]
     return [{"mode": "twin", "args": ["--seed", seed * 1000 + 700 + i, "--count", t]} for i in range(tn)]
 
 
@@ -108,17 +108,17 @@ PROPS = {
         "trusted_base": [],
     },
     "C03": {
-        "lean_modules": ["Perp.Props.Dispatch", "Perp.Props.EngineMoney", "Perp.Props.G9Restr", "Perp.Props.G9Perm", "Perp.Props.WorldMore", "Perp.Props.SatA.C10", "Perp.Props.SatA.C03W", "Perp.Props.SatA", "Perp.Props.Capstone", "Perp.Props.MonitorSound", "Perp.Props.CapstoneTx", "Perp.Props.MonitorTxSound", "Perp.Props.CapLedger"],
+        "lean_modules": ["Perp.Props.Dispatch", "Perp.Props.EngineMoney", "Perp.Props.G9Restr", "Perp.Props.G9Perm", "Perp.Props.WorldMore", "Perp.Props.SatA.C10", "Perp.Props.SatA.C03W", "Perp.Props.SatA", "Perp.Props.Capstone", "Perp.Props.MonitorSound", "Perp.Props.CapstoneTx", "Perp.Props.MonitorTxSound", "Perp.Props.CapLedger", "Perp.Props.FuelEnough"],
         "runs": lambda tier, seed: world_runs(tier, seed),
         "rule": WORLD_RULE, "assumptions": WORLD_ASSUMPTIONS,
     },
     "C08": {
-        "lean_modules": ["Perp.Props.Dispatch", "Perp.Props.WorldInv", "Perp.Props.SatA", "Perp.Props.Capstone", "Perp.Props.MonitorSound", "Perp.Props.CapstoneTx", "Perp.Props.MonitorTxSound", "Perp.Props.CapLedger", "Perp.Props.FaultAtomic"],
+        "lean_modules": ["Perp.Props.Dispatch", "Perp.Props.WorldInv", "Perp.Props.SatA", "Perp.Props.Capstone", "Perp.Props.MonitorSound", "Perp.Props.CapstoneTx", "Perp.Props.MonitorTxSound", "Perp.Props.CapLedger", "Perp.Props.FaultAtomic", "Perp.Props.FuelEnough"],
         "runs": lambda tier, seed: world_runs(tier, seed) + fault_runs(tier, seed),
         "rule": WORLD_RULE, "assumptions": WORLD_ASSUMPTIONS,
     },
     "C09": {
-        "lean_modules": ["Perp.Props.VammGuards", "Perp.Props.C18F", "Perp.Props.EngineGuards", "Perp.Props.SatF09", "Perp.Props.SatF", "Perp.Props.Capstone", "Perp.Props.MonitorSound", "Perp.Props.CapstoneTx", "Perp.Props.MonitorTxSound", "Perp.Props.CapClose"],
+        "lean_modules": ["Perp.Props.VammGuards", "Perp.Props.C18F", "Perp.Props.EngineGuards", "Perp.Props.SatF09", "Perp.Props.SatF", "Perp.Props.Capstone", "Perp.Props.MonitorSound", "Perp.Props.CapstoneTx", "Perp.Props.MonitorTxSound", "Perp.Props.CapClose", "Perp.Props.SatRoles"],
         "runs": lambda tier, seed: world_runs(tier, seed) + [vamm_run(tier, seed, 600, 10000), feed_run(tier, seed, 300, 5000)],
         "rule": WORLD_RULE, "assumptions": WORLD_ASSUMPTIONS,
     },
@@ -165,7 +165,7 @@ PROPS = {
         "rule": WORLD_RULE + "; plus three runs biased to the profit-taking / empty-vault / liquidation campaign", "assumptions": WORLD_ASSUMPTIONS,
     },
     "C10": {
-        "lean_modules": ["Perp.Props.WorldInv", "Perp.Props.EngineMoney", "Perp.Props.SatA.C10", "Perp.Props.SatA", "Perp.Props.Capstone", "Perp.Props.MonitorSound", "Perp.Props.CapstoneTx", "Perp.Props.MonitorTxSound"],
+        "lean_modules": ["Perp.Props.WorldInv", "Perp.Props.EngineMoney", "Perp.Props.SatA.C10", "Perp.Props.SatA", "Perp.Props.Capstone", "Perp.Props.MonitorSound", "Perp.Props.CapstoneTx", "Perp.Props.MonitorTxSound", "Perp.Props.SatScope"],
         "runs": lambda tier, seed: world_runs(tier, seed),
         "rule": WORLD_RULE, "assumptions": WORLD_ASSUMPTIONS,
     },
